@@ -229,6 +229,21 @@ def apply_fn_sections(s, fnsec, item_lo, item_hi, log, copies, skip=frozenset())
             else:
                 raise Lost('%s: unexpected signature tail %r' % (where, tail))
             s = s[:pc + 1] + sig_tail + '\n' + txt + BODY_MARK + s[bo:]
+        elif sub.kind == 'canon_local':
+            # X25: the local bound by the first statement matching <regex> (one group = its name) is alpha-renamed to the
+            # canonical name the proof text uses; no-op when it already has that name
+            mmc = re.match(r'^(.*?)\s+=>\s+(\w+)$', sub.arg, flags=re.S)
+            rxc, canon = mmc.group(1), mmc.group(2)
+            hits = list(find_code(s, m, rxc, bo, bc))
+            if hits:
+                cur = hits[0].group(1)
+                if cur != canon:
+                    body_txt = s[bo:bc + 1]
+                    if re.search(r'(?<![A-Za-z0-9_])%s(?![A-Za-z0-9_])' % re.escape(canon), body_txt):
+                        raise Lost('%s: canonical local name %s already in use' % (where, canon))
+                    body_txt = re.sub(r'(?<![A-Za-z0-9_.])%s(?![A-Za-z0-9_])' % re.escape(cur), canon, body_txt)
+                    s = s[:bo] + body_txt + s[bc + 1:]
+                    log.append((where, 'canon_local %s -> %s' % (cur, canon)))
         elif sub.kind == 'head':
             s = s[:bo + 1] + '\n' + txt + s[bo + 1:]
         elif sub.kind == 'loop':
